@@ -665,8 +665,8 @@ CHECKS["C15"]["theorems"] += [AS + n for n in ["C15_boundary_observer_step", "C1
 CHECKS["C15"]["status"] += ("; an observer of the resource's own boundary that moves the dependency on when the boundary starts loading (repair D29, mode resourcebo): "
     "every step is a machine step of a translated event (C15_boundary_observer_step), the fetch a write starts is one for the value the dependency has afterwards")
 
-# --- round 11: the value TYPE of a memo is fixed in the harness (recorded limit; seeded change C02-zst-memo-never-changes is missed)
-_ZST = (" Limit found by seeded round 11: every memo the harness creates has the value type i64, so code that depends on the value TYPE of a memo "
-        "(e.g. a zero-sized one) is not exercised by the correspondence; the model's plain memos are 'always changed' whatever the value (DESIGN.md R.6, eleventh round).")
+# --- round 11: the value TYPE of a memo (seeded change C02-zst-memo-never-changes): `(zmemo …)` = a plain memo with a zero-sized value type
+_ZST = (" Value types: the generated memos all have the value type i64; plain memos with a ZERO-SIZED value type are exercised by the corpus programs "
+        "`corpus/reactive/zst.case` only (statement `(zmemo …)`, read by the model as a plain memo); other value types are not exercised (DESIGN.md R.6, eleventh round).")
 CHECKS["C01"]["manifest_note"] += _ZST
 CHECKS["C02"]["manifest_note"] += _ZST
